@@ -8,6 +8,36 @@ from lib import vfmt
 
 # ------------------------------------------------------------------ script generation
 def gen_script(rng, tier, focus=None):
+    if focus == 'close':
+        # C09's last clause on the assembled client: endpoints failing and recovering around traffic, the client closed
+        # in the middle of it (also before it has finished opening), then left alone
+        stack = rng.choice(['thrift', 'mux'])
+        neps = rng.choice([1, 2, 3])
+        early = rng.random() < 0.25
+        steps = [['srv', ep, 'echo', 5] for ep in range(neps)]
+        if rng.random() < 0.4:
+            steps.append(['reach', rng.randrange(neps), False])
+        if not early:
+            steps.append(['adv', 50])
+            for _ in range(rng.choice([2, 5, 9])):
+                r = rng.random()
+                if r < 0.4:
+                    steps.append(['call', rng.choice([5, 10, 30]) * 10 + rng.randrange(1, 10)])
+                elif r < 0.6:
+                    steps.append(['adv', rng.choice([1, 31, 120, 1000, 5000])])
+                elif r < 0.75:
+                    steps.append(['kill', rng.randrange(neps)])
+                else:
+                    steps.append(['reach', rng.randrange(neps), rng.random() < 0.4])
+        else:
+            steps += [['call', 57] for _ in range(rng.choice([0, 1, 2]))]
+        sc = {'stack': stack, 'neps': neps, 'open_delay': rng.choice([0, 30, 300]) if early else 0, 'pool': None,
+              'steps': steps, 'aged': False, 'after_close': rng.choice(['down', 'up', 'up'])}
+        if rng.random() < 0.4:
+            sc['provider'] = 'zk'
+            sc['zk_delay'] = rng.choice([0, 0, 40, 200])
+            sc['zk_own'] = rng.random() < 0.5
+        return sc
     if focus == 'late':
         # replies that arrive after their call timed out, while later calls are in flight on the same connection
         stack = rng.choice(['mux', 'mux', 'thrift'])
@@ -162,6 +192,9 @@ def run_script(script, comp='e2e'):
             self.held = []          # (conn, kind, tag, payload, cid)
             self.net = fakenet.NET.server('h%d' % ep, 9000 + ep)
             self.net.on_connect = self.on_connect
+
+            # every connection attempt towards this endpoint, at the moment the client starts it
+            self.net.on_attempt = lambda: ev('connect', ep, now())
             self.conn_ids = {}
 
         def conn_id(self, conn):
@@ -324,6 +357,7 @@ def run_script(script, comp='e2e'):
         return ['err', type(innerex).__name__]
 
     saved_ar = dispatch.AsyncResult
+    saved_kazoo = zk_provider = None
     import scales.mux.sink as muxsink
     saved_pool = muxsink.TagPool
     if script.get('aged') and stack == 'mux':
@@ -347,6 +381,45 @@ def run_script(script, comp='e2e'):
         else:
             from scales.thriftmux import ThriftMux as B
         builder = B.NewBuilder(Hello.Iface)
+        if script.get('provider') == 'zk':
+            # the endpoints come from the real ZooKeeperServerSetProvider / ServerSet over a fake ensemble that answers
+            # by itself; each member read takes script['zk_delay'] ms (a server set that is slow to load)
+            import fakezk
+            from kazoo.exceptions import NoNodeError
+            from kazoo.protocol.states import ZnodeStat
+            from scales.loadbalancer.serverset import ZooKeeperServerSetProvider
+            zk_delay = script.get('zk_delay', 0) / 1000.0
+
+            class AutoZk(fakezk.FakeZk):
+                def get(self, path, watch=None):
+                    if path == self.base:
+                        return fakezk.FakeZk.get(self, path, watch)
+                    name = path[len(self.base) + 1:]
+                    if zk_delay:
+                        gevent.sleep(zk_delay)
+                    if name not in self.kids:
+                        raise NoNodeError()
+                    data, z = self.kids[name]
+                    return data, ZnodeStat(z, z, 0, 0, 0, 0, 0, 0, len(data), 0, z)
+
+                def _fire(self, kind, etype):
+                    fakezk.FakeZk._fire(self, kind, etype)
+                    while self.pending:
+                        self.t_deliver()
+
+            zk = AutoZk('/svc')
+            zk.t_create_parent()
+            for ep in range(neps):
+                zk.t_create_child('member_%010d' % ep, fakezk.member_data('h%d' % ep, 9000 + ep))
+            tags.add('provider-zk')
+            if script.get('zk_own', True):
+                # configured by URI: the provider makes (and owns) its client
+                saved_kazoo = ZooKeeperServerSetProvider.KazooClient
+                ZooKeeperServerSetProvider.KazooClient = staticmethod(lambda **kw: zk)
+                uri = 'zk://zk1:2181/svc'
+                tags.add('provider-zk-owned')
+            else:
+                zk_provider = ZooKeeperServerSetProvider(zk, '/svc')       # a client handed in by the application
         if script.get('pool') and stack == 'thrift':
             from scales.constants import SinkRole
             from scales.pool import WatermarkPoolSink
@@ -356,7 +429,10 @@ def run_script(script, comp='e2e'):
             tags.add('small-pool')
         # the client-wide default timeout: a 'call' step with T = 0 passes no timeout of its own and relies on it
         default_T = script.get('default_T', 10000)
-        client = builder.SetUri(uri).SetTimeout(default_T / 1000.0).SetOpenTimeout(0).Build()
+        builder = builder.SetUri(uri)
+        if zk_provider is not None:
+            builder = builder.SetServerSetProvider(zk_provider)
+        client = builder.SetTimeout(default_T / 1000.0).SetOpenTimeout(0).Build()
         disp = client._dispatcher
         dispatch.AsyncResult = CountingAR
         opened = [False]
@@ -422,9 +498,22 @@ def run_script(script, comp='e2e'):
         ev('tick', now())
         client.DispatcherClose()
         rt.drain()
+        ev('clientclosed', now())
+        if script.get('after_close'):
+            # the closed client is left alone for a long while: retry timers, the aperture's jitter rounds, a server
+            # set that is still loading — nothing may bring a connection up any more
+            tags.add('after-close-' + script['after_close'])
+            for sv in srvs:
+                sv.net.reachable = script['after_close'] != 'down'
+            for dt in (0.3, 5, 60, 400):
+                rt.advance(dt)
+            ev('tick', now())
     finally:
         dispatch.AsyncResult = saved_ar
         muxsink.TagPool = saved_pool
+        if saved_kazoo is not None:
+            from scales.loadbalancer.serverset import ZooKeeperServerSetProvider as _P
+            _P.KazooClient = saved_kazoo
         fakenet.NET.connect_delay = 0
     rt.kill_stragglers()
     tags.add(stack)
